@@ -181,9 +181,9 @@ class Gen:
                     break
                 masks.append(m)
             self.mask_cursor += len(masks)
-        if masks is None and self.tier == "thorough" and rng.random() < 0.004 and kind in ("emg", "data3d"):
+        if masks is None and rng.random() < (0.004 if self.tier == "thorough" else 0.002) and kind in ("emg", "data3d"):
             # a block of a few hundred KiB: size thresholds (buffer sizes, 64 KiB, chunked copies)
-            n = rng.randint(20000, 70000)
+            n = rng.choice((rng.randint(16384, 70000), rng.randint(65537, 140000)))
             m = "1" * n if rng.random() < 0.5 else "1" * (n // 3) + "0" * 7 + "1" * (n - n // 3 - 7)
             return gen.block(rng, kind, masks=[m], fmix="ordinary")
         return gen.block(rng, kind, big=rng.random() < self.p["big"], min_items=min_items, masks=masks,
